@@ -350,8 +350,9 @@ fn valid_prql_ident() -> &'static Regex {
     static VALID_PRQL_IDENT: OnceLock<Regex> = OnceLock::new();
     VALID_PRQL_IDENT.get_or_init(|| {
         // Pomsky expression (regex is to Pomsky what SQL is to PRQL):
-        // ^ ('*' | [ascii_alpha '_$'] [ascii_alpha ascii_digit '_$']* ) $
-        Regex::new(r"^(?:\*|[a-zA-Z_][a-zA-Z0-9_]*)$").unwrap()
+        // ^ [ascii_alpha '_'] [ascii_alpha ascii_digit '_']* $
+        // (a bare `*` is not an identifier token: a name spelled `*` keeps its backticks)
+        Regex::new(r"^[a-zA-Z_][a-zA-Z0-9_]*$").unwrap()
     })
 }
 
